@@ -157,6 +157,73 @@ def withoutCallerWrites (es : List Effect) : List Effect :=
 def kvLe (a b : Str × Str × Code × Code) : Bool := dictLe (a.1, a.2.1) (b.1, b.2.1)
 def sortKV (l : List (Str × Str × Code × Code)) : List (Str × Str × Code × Code) := l.mergeSort kvLe
 
+/-- the dynamic content of a token (`interface{}`): a plain string (identifiers, keywords, operators,
+    package paths …), a literal value handed to Lit / LitRune / LitByte, or nil (the null token) -/
+inductive Dyn
+  | str (s : Str)
+  | lit (v : LitVal)
+  | nil
+deriving Repr
+
+/-- the dynamic type, as the type switch of token.render spells it -/
+def dynType : Dyn → String
+  | .str _ => "string"
+  | .nil => "nil"
+  | .lit (.bool _) => "bool"
+  | .lit (.str _) => "string"
+  | .lit (.int _) => "int"
+  | .lit (.sized ty _) => String.ofList (ty.name.map fun b => Char.ofNat b.toNat)
+  | .lit (.f64 _) => "float64"
+  | .lit (.f32 _) => "float32"
+  | .lit (.c128 _ _) => "complex128"
+  | .lit (.c64 _ _) => "complex64"
+  | .lit (.rune _) => "int32"
+  | .lit (.byte _) => "uint8"
+
+def dynIs (v : Dyn) (names : List String) : Bool := names.contains (dynType v)
+
+/-- `content.(string)` / `%s` -/
+def dynStr : Dyn → Str
+  | .str s => s
+  | .lit (.str s) => s
+  | _ => []
+
+/-- `%T` -/
+def typeName : Dyn → Str
+  | .lit (.sized ty _) => ty.name
+  | .lit (.f32 _) => [102, 108, 111, 97, 116, 51, 50]
+  | .lit (.c64 _ _) => [99, 111, 109, 112, 108, 101, 120, 54, 52]
+  | v => (dynType v).toUTF8.toList
+
+/-- `%#v` (Go-syntax representation) of the supported literal types; floats through
+    strconv.FormatFloat (the text travels with the value, see `LitVal`) -/
+def sharpV (isPrint : Nat → Bool) : Dyn → Str
+  | .str s => Quote.quote isPrint s
+  | .nil => [60, 110, 105, 108, 62]
+  | .lit (.bool true) => [116, 114, 117, 101]
+  | .lit (.bool false) => [102, 97, 108, 115, 101]
+  | .lit (.str s) => Quote.quote isPrint s
+  | .lit (.int v) => Str.intDec v
+  | .lit (.sized ty v) => Lit.fmtInt ty.signed v
+  | .lit (.f64 t) => t
+  | .lit (.f32 t) => t
+  | .lit (.c128 re im) => Lit.fmtComplex re im
+  | .lit (.c64 re im) => Lit.fmtComplex re im
+  | .lit (.rune r) => Str.intDec r
+  | .lit (.byte b) => [48, 120] ++ Str.natHex b.toNat
+
+/-- `strconv.QuoteRune(content.(rune))` -/
+def quoteRuneDyn (isPrint : Nat → Bool) : Dyn → Str
+  | .lit (.rune r) => Quote.quoteRune isPrint r
+  | _ => []
+
+/-- the content of a model token -/
+def dynOf : Code → Dyn
+  | .tok .null _ => .nil
+  | .tok _ s => .str s
+  | .lit v => .lit v
+  | _ => .nil
+
 /-- `sort.Strings` (bytewise order) -/
 def sortStrings (l : List Str) : List Str := l.mergeSort Str.le
 
